@@ -52,6 +52,29 @@ Fixpoint first_bad (p : SA*SB) (ins : list I) : option I :=
 
 Definition succ_of (p : SA*SB) (i : I) : SA*SB := (fst (stepA (fst p) i), fst (stepB (snd p) i)).
 
+(** every admitted input is stepped exactly once per visited pair *)
+Definition step_all (p : SA*SB) (ins : list I) : list (I * (SA*O) * (SB*O)) :=
+  map (fun i => (i, stepA (fst p) i, stepB (snd p) i)) ins.
+
+Fixpoint first_bad_s (l : list (I * (SA*O) * (SB*O))) : option I :=
+  match l with
+  | [] => None
+  | (i, ao, bo) :: r => if eqO (snd ao) (snd bo) then first_bad_s r else Some i
+  end.
+
+Definition nexts_s (path : list I) (l : list (I * (SA*O) * (SB*O))) : list ((SA*SB) * list I) :=
+  map (fun t => ((fst (snd (fst t)), fst (snd t)), fst (fst t) :: path)) l.
+
+Lemma first_bad_s_eq p ins : first_bad_s (step_all p ins) = first_bad p ins.
+Proof.
+  induction ins as [|i r IH]; [reflexivity|].
+  cbn [step_all map first_bad_s first_bad snd]. fold (step_all p r). rewrite IH. reflexivity.
+Qed.
+
+Lemma nexts_s_eq p path ins :
+  nexts_s path (step_all p ins) = map (fun i => (succ_of p i, i :: path)) ins.
+Proof. unfold nexts_s, step_all. rewrite map_map. reflexivity. Qed.
+
 Inductive verdict :=
 | VOk (states transitions : N)
 | VCex (path : list I)           (* a shortest-found distinguishing input sequence *)
@@ -67,13 +90,33 @@ Fixpoint explore (fuel : nat) (v : vset) (front : list ((SA*SB) * list I)) (ns n
     | (p, path) :: rest =>
       if vmem v p then explore f v rest ns nt
       else
-        let ins := admitted p in
-        match first_bad p ins with
+        let l := step_all p (admitted p) in
+        match first_bad_s l with
         | Some i => VCex (rev (i :: path))
         | None =>
-            explore f (vadd v p)
-                    (rest ++ map (fun i => (succ_of p i, i :: path)) ins)
-                    (N.succ ns) (nt + N.of_nat (length ins))%N
+            explore f (vadd v p) (nexts_s path l ++ rest)
+                    (N.succ ns) (nt + N.of_nat (length l))%N
+        end
+    end
+  end.
+
+(** breadth-first variant (two-list queue); used only to print a short
+    counter-example after an obligation failed - nothing is proved about it *)
+Fixpoint explore_bfs (fuel : nat) (v : vset) (front back : list ((SA*SB) * list I)) (ns nt : N) : verdict :=
+  match fuel with
+  | 0 => VFuel
+  | S f =>
+    match front with
+    | [] => match back with [] => VOk ns nt | _ => explore_bfs f v (rev back) [] ns nt end
+    | (p, path) :: rest =>
+      if vmem v p then explore_bfs f v rest back ns nt
+      else
+        let l := step_all p (admitted p) in
+        match first_bad_s l with
+        | Some i => VCex (rev (i :: path))
+        | None =>
+            explore_bfs f (vadd v p) rest (rev_append (nexts_s path l) back)
+                    (N.succ ns) (nt + N.of_nat (length l))%N
         end
     end
   end.
@@ -129,23 +172,24 @@ Proof.
         intros i Hi Ha. destruct (Hs i Hi Ha) as [H|[H|H]]; auto. left. cbn in H. rewrite <- H. exact Hm.
       * exists v'. split; [exact Hc|split; [exact Hsub|]].
         intros q [<-|Hq]; [apply Hsub; exact Hm|apply Hfr; exact Hq].
-    + destruct (first_bad p (admitted p)) eqn:Ho; [discriminate|].
+    + cbv zeta in Hex. rewrite first_bad_s_eq, nexts_s_eq in Hex.
+      destruct (first_bad p (admitted p)) eqn:Ho; [discriminate|].
       match type of Hex with explore f ?V ?F ?A ?B = _ =>
         destruct (IH V F A B ns' nt') as (v' & Hc & Hsub & Hfr); [|exact Hex|] end.
       * intros q Hq. apply vmem_add in Hq. destruct Hq as [->|Hq].
         -- split; [apply first_bad_good; exact Ho|]. intros i Hi Ha. right.
-           unfold fpairs. rewrite map_app. apply in_or_app. right.
+           unfold fpairs. rewrite map_app. apply in_or_app. left.
            rewrite map_map. cbn. apply in_map_iff. exists i. split; [reflexivity|].
            unfold admitted. apply filter_In; auto.
         -- destruct (Hinv q Hq) as [Hg Hs]. split; [exact Hg|]. intros i Hi Ha.
            destruct (Hs i Hi Ha) as [H|[H|H]].
            ++ left. apply vmem_add. auto.
            ++ left. apply vmem_add. left. symmetry; exact H.
-           ++ right. unfold fpairs. rewrite map_app. apply in_or_app. left. exact H.
+           ++ right. unfold fpairs. rewrite map_app. apply in_or_app. right. exact H.
       * exists v'. split; [exact Hc|split].
         -- intros q Hq. apply Hsub, vmem_add. auto.
         -- intros q [<-|Hq]; [apply Hsub, vmem_add; auto|].
-           apply Hfr. unfold fpairs. rewrite map_app. apply in_or_app. left. exact Hq.
+           apply Hfr. unfold fpairs. rewrite map_app. apply in_or_app. right. exact Hq.
 Qed.
 
 (** traces *)
@@ -166,6 +210,9 @@ Qed.
 
 Definition check (fuel : nat) (inits : list (SA*SB)) : verdict :=
   explore fuel (PositiveMap.empty _) (map (fun p => (p, [])) inits) 0 0.
+
+Definition check_bfs (fuel : nat) (inits : list (SA*SB)) : verdict :=
+  explore_bfs fuel (PositiveMap.empty _) (map (fun p => (p, [])) inits) [] 0 0.
 
 Theorem explore_sound fuel inits ns nt :
   check fuel inits = VOk ns nt ->
